@@ -289,6 +289,9 @@ def group_records(recs):
     return by
 
 
+STOP = "__stop__"   # a match function returns this to accept the step and end the comparison of the behaviour
+
+
 def default_match(exp, obs, step=None, rec=None, prev=None):
     """Key-wise equality; expected value "any" matches everything."""
     for k, v in exp.items():
@@ -317,6 +320,8 @@ def compare(behaviours, recs, match=default_match):
                 out.append({"b": b, "i": i, "step": st, "rec": rec, "why": rec["a"]})
                 break
             why = match(st.get("exp") or {}, rec.get("obs") or {}, st, rec, rs[i - 1] if i else None)
+            if why == STOP:
+                break       # permitted divergence (e.g. a refusal the statement allows): the rest is not comparable
             if why:
                 out.append({"b": b, "i": i, "step": st, "rec": rec, "why": why})
                 break
